@@ -16,7 +16,7 @@
 From Coq Require Import ZifyN ZifyNat ZifyBool.
 From KP Require Import model.Base model.Trace model.M5time.
 From KP Require Import proofs.M5timeFacts proofs.M5timeFacts2 proofs.M5timeFacts3 proofs.M5timeFacts4
-                       proofs.M5timeFacts5 proofs.M5timeFacts6 proofs.M5timeFacts7 proofs.M5timeFacts8.
+                       proofs.M5timeFacts5 proofs.M5timeFacts6 proofs.M5timeFacts7 proofs.M5timeFacts8 proofs.M5timeFacts9.
 Local Open Scope N_scope.
 
 (** [tr = pre ++ eI :: eP :: mid ++ eR :: post]: the command [c] is issued by
@@ -52,6 +52,39 @@ Theorem c17_nonblocking :
     e_t eR = e_t eI.
 Proof. exact nonblocking_trace. Qed.
 Print Assumptions c17_nonblocking.
+
+(** ** Promptness: a command returns as soon as its condition is met.
+    The return of [c] happens at the very time of an EARLIER event of its chain
+    ([chain_ev c]): a step of [c] itself, the event of a waiter of its balancer
+    (signalled healthy, or timed out), or the end ([KStateSet]) of a Drain call —
+    never later.  So a deploy whose targets are all signalled at h and that
+    drains nothing returns at h, not at the deadline (Example
+    [ex_prompt_healthy] below); one that drains returns when the last Drain
+    call ends, and [c17_prompt_drain] / [c17_drain_deadline_exact] say when that
+    is: when the last request of the snapshot ends (or is cancelled by another
+    Drain call), at once if there is none, and otherwise exactly at
+    mark + drain_timeout. *)
+Theorem c17_prompt :
+  forall pre eR post s c r,
+    run step init (pre ++ eR :: post) = Some s -> e_k eR = KReturn c r -> no_parks pre = true ->
+    exists e', In e' pre /\ e_t e' = e_t eR /\ chain_ev c e'.
+Proof. exact prompt_trace. Qed.
+Print Assumptions c17_prompt.
+
+Theorem c17_prompt_drain :
+  forall pre eC post s t,
+    run step init (pre ++ eC :: post) = Some s -> e_k eC = KDrainCancelRest t -> no_parks pre = true ->
+    exists e', In e' pre /\ e_t e' = e_t eC /\ drain_ev (goid (e_by eC)) t e'.
+Proof. exact prompt_drain_trace. Qed.
+Print Assumptions c17_prompt_drain.
+
+Theorem c17_drain_deadline_exact :
+  forall pre eD post s t,
+    run step init (pre ++ eD :: post) = Some s -> e_k eD = KDrainDeadline t -> no_parks pre = true ->
+    exists e0 o timeout, In e0 pre /\ goid (e_by e0) = goid (e_by eD) /\ e_k e0 = KDrainBegin t o timeout /\
+                         e_t eD = e_t e0 + timeout.
+Proof. exact deadline_exact_trace. Qed.
+Print Assumptions c17_drain_deadline_exact.
 
 (** ** No probes left behind.  [quiet_ts s ts]: no target of [ts] has a live
     probe loop in state [s]; [s4] is the state after ANY accepted continuation
@@ -242,6 +275,12 @@ Proof. vm_compute. reflexivity. Qed.
 
 (** the redeploy returns at mark + drain_timeout = 2 s (its bound is 3 s): *)
 Example ex_redeploy_return : In (mkEv 2000000000 (ACmd 2) (KReturn 2 CROk)) ex_redeploy.
+Proof. vm_compute. tauto. Qed.
+
+(** [tb] answers its second probe at 1 s (deploy deadline 2 s): the deploy goes on at 1 s *)
+Example ex_prompt_healthy :
+  In (mkEv 1000000000 (AGo 14) (KWaiter 1 true)) ex_redeploy /\
+  In (mkEv 1000000000 (ACmd 2) (KDeployWaited 1 true)) ex_redeploy.
 Proof. vm_compute. tauto. Qed.
 
 Example ex_failed_accepted : accepted ex_failed = true.
